@@ -1611,20 +1611,26 @@ def verbose_case(ctx, case):
     # a value `{v:.6f}` cannot format is outside the property's values: whatever `verbose` is, the effects are compared at aux level then
     lvl = "property" if all_ok else "aux"
     th = TH_VERB if lvl == "property" else "C17_verbose_unformattable_partial, C17_verbose_unformattable_partial_observable, C17_verbose_identity_test"
-    ctx.point("raised (an exception left on_epoch_end)", lvl, V["raised"] is not None, m["err"] is not None, case, exact=True, theorem=th, sig=f"{sig}/raised")
-    ctx.point("len and epochs", lvl, [V["state"]["len"], V["state"]["epochs"]], [m["len"], m["epochs"]], case, exact=True, theorem=th, sig=f"{sig}/epochs")
+    # effects when EVERY value is formattable: property level.  With a value `{v:.6f}` cannot format (outside the property's values) the
+    # partial effects left behind are recorded only (info), and so is everything printed: wording / chunking of stdout is not constrained
+    def pt(name, impl, model, sg):
+        if lvl == "property":
+            ctx.point(name, "property", impl, model, case, exact=True, theorem=th, sig=f"{sig}/{sg}")
+        else:
+            ctx.info(f"verbose/{kind}/unformattable value: {name}", impl, model)
+    pt("raised (an exception left on_epoch_end)", V["raised"] is not None, m["err"] is not None, "raised")
+    pt("len and epochs", [V["state"]["len"], V["state"]["epochs"]], [m["len"], m["epochs"]], "epochs")
     if kind == "metric":
         mlast = {k: value_canon(val(t)) for k, t in m["last"]}
         mpast = [[e, {k: value_canon(val(t)) for k, t in d}] for e, d in m["past"]]
     else:
         mlast = {k: {s: value_canon(val(t)) for s, t in sd} for k, sd in m["last"]}
         mpast = [[e, {k: {s: value_canon(val(t)) for s, t in sd} for k, sd in d}] for e, d in m["past"]]
-    ctx.point("last", lvl, V["state"]["last"], mlast, case, exact=True, theorem=th, sig=f"{sig}/last")
-    ctx.point("past_values", lvl, V["state"]["past"], mpast, case, exact=True, theorem=th, sig=f"{sig}/past")
+    pt("last", V["state"]["last"], mlast, "last")
+    pt("past_values", V["state"]["past"], mpast, "past")
     mrows = [csv_line([c["t"] if "t" in c else c["i"] if "i" in c else "" if "b" in c else val(c["v"]) for c in row]) for row in m["log"]]
-    ctx.point("CSV rows (header + one row per completed evaluation)", lvl, V["state"]["csv"], mrows, case, exact=True, theorem=th, sig=f"{sig}/csv")
-    ctx.point("stdout (header / formatted line per evaluation, in order)", "aux", V["stdout"], "".join(m["out"]), case, exact=True,
-              theorem="C17_verbose_identity_test", sig=f"{sig}/stdout")
+    pt("CSV rows (header + one row per completed evaluation)", V["state"]["csv"], mrows, "csv")
+    ctx.info(f"verbose/{kind}: stdout (header / formatted line per evaluation, in order)", V["stdout"], "".join(m["out"]))
     if lvl == "aux":
         ctx.count(f"verbose:partial effects compared ({kind}; raised={V['raised']})")
 
@@ -1693,13 +1699,15 @@ def logger_fn_case(ctx, case):
         if case["fn"] != "noncallable":
             ctx.point("logger_fn: number of messages handed / lines printed", "property", [len(handed), len(printed), raised is not None],
                       [len(m["handed"]), len(m["printed"]), m["err"] is not None], cs, exact=True, sig=sig + "/count", theorem="C17_logger_fn_branches")
-            lvl = "property" if case["msg"] == "callable" else "aux"   # the TEXT of the default message is not in the property
-            ctx.point("logger_fn: message texts (handed, printed)", lvl, [handed, printed], [m["handed"], m["printed"]], cs, exact=True, sig=sig + "/text",
-                      theorem="C17_logger_fn_branches, C17_logger_msg_gen_fallback")
+            if case["msg"] == "callable":
+                ctx.point("logger_fn: message texts (handed, printed)", "property", [handed, printed], [m["handed"], m["printed"]], cs, exact=True,
+                          sig=sig + "/text", theorem="C17_logger_fn_branches, C17_logger_msg_gen_fallback")
+            else:   # the TEXT of the default message is not in the property: recorded only
+                ctx.info("logger_fn: default message texts (handed, printed)", [handed, printed], [m["handed"], m["printed"]])
         else:
-            # a logger_fn that cannot be called: the property does not say what happens -> auxiliary, refused-or-not only
-            ctx.point("logger_fn non-callable: run refused iff a scheduled epoch end occurs; nothing emitted", "aux", [raised is not None, handed, printed],
-                      [m["err"] is not None, m["handed"], m["printed"]], cs, exact=True, sig=sig + "/refusal", theorem="C17_logger_fn_branches")
+            # a logger_fn that cannot be called: the property does not say what happens -> recorded only
+            ctx.info("logger_fn non-callable: run refused iff a scheduled epoch end occurs; nothing emitted", [raised is not None, handed, printed],
+                     [m["err"] is not None, m["handed"], m["printed"]])
     ctx.case({"logger_fn": {k: case[k] for k in ("period", "msg", "fn", "msg_obj", "fn_obj", "start", "epochs", "kwargs")}}, nontrivial=bool(sched),
              sample={"logger_fn": case["fn"], "msg": case["msg"], "scheduled": sched})
 
